@@ -1,6 +1,7 @@
 package main
 
 import (
+	"go/constant"
 	"fmt"
 	"go/token"
 	"go/types"
@@ -39,13 +40,70 @@ func walkToReturns(f *ssa.Function, oracle func(cond ssa.Value) int) ([]*ssa.Ret
 	var rets []*ssa.Return
 	note := ""
 	seen := map[*ssa.BasicBlock]bool{}
-	var walk func(b *ssa.BasicBlock, depth int)
-	walk = func(b *ssa.BasicBlock, depth int) {
+	// the walk is path-sensitive for boolean phis (&& / || chains kept in a
+	// variable): a phi stands for the value of the edge the walk came in by
+	choice := map[*ssa.Phi]ssa.Value{}
+	var eval func(cond ssa.Value, depth int) int
+	eval = func(cond ssa.Value, depth int) int {
+		if depth > 8 {
+			return -1
+		}
+		switch x := cond.(type) {
+		case *ssa.Const:
+			if x.Value != nil && x.Value.Kind() == constant.Bool {
+				if constant.BoolVal(x.Value) {
+					return 1
+				}
+				return 0
+			}
+		case *ssa.UnOp:
+			if x.Op == token.NOT {
+				switch eval(x.X, depth+1) {
+				case 1:
+					return 0
+				case 0:
+					return 1
+				}
+				return -1
+			}
+		case *ssa.Phi:
+			if v, ok := choice[x]; ok {
+				return eval(v, depth+1)
+			}
+			return -1
+		}
+		return oracle(cond)
+	}
+	var walk func(b, from *ssa.BasicBlock, depth int)
+	walk = func(b, from *ssa.BasicBlock, depth int) {
 		if depth > 200 || seen[b] {
 			return
 		}
 		seen[b] = true
 		defer func() { seen[b] = false }()
+		if from != nil {
+			for k, pb := range b.Preds {
+				if pb != from {
+					continue
+				}
+				for _, ins := range b.Instrs {
+					phi, ok := ins.(*ssa.Phi)
+					if !ok {
+						break
+					}
+					old, had := choice[phi]
+					choice[phi] = phi.Edges[k]
+					defer func() {
+						if had {
+							choice[phi] = old
+						} else {
+							delete(choice, phi)
+						}
+					}()
+				}
+				break
+			}
+		}
 		last := b.Instrs[len(b.Instrs)-1]
 		switch t := last.(type) {
 		case *ssa.Return:
@@ -56,21 +114,21 @@ func walkToReturns(f *ssa.Function, oracle func(cond ssa.Value) int) ([]*ssa.Ret
 			}
 			rets = append(rets, t)
 		case *ssa.Jump:
-			walk(b.Succs[0], depth+1)
+			walk(b.Succs[0], b, depth+1)
 		case *ssa.If:
-			switch oracle(t.Cond) {
+			switch eval(t.Cond, 0) {
 			case 1:
-				walk(b.Succs[0], depth+1)
+				walk(b.Succs[0], b, depth+1)
 			case 0:
-				walk(b.Succs[1], depth+1)
+				walk(b.Succs[1], b, depth+1)
 			default:
 				note = fmt.Sprintf("branch condition %s cannot be evaluated from the order of the two ends", t.Cond.String())
-				walk(b.Succs[0], depth+1)
-				walk(b.Succs[1], depth+1)
+				walk(b.Succs[0], b, depth+1)
+				walk(b.Succs[1], b, depth+1)
 			}
 		}
 	}
-	walk(f.Blocks[0], 0)
+	walk(f.Blocks[0], nil, 0)
 	return rets, note
 }
 
